@@ -142,9 +142,9 @@ fn run_once(sc: &Scenario, ch: &mut Chooser) -> Outcome {
     })
 }
 
-fn recover(image: &std::collections::BTreeMap<String, Vec<u8>>) -> Result<BTreeSet<u64>, String> {
+fn recover(image: &std::collections::BTreeMap<String, Vec<u8>>, max_file_size: usize) -> Result<BTreeSet<u64>, String> {
     let st = VWalStore::from_image(image);
-    let rot = WalRotator::new(st, 1 << 30).map_err(|e| format!("rotator open failed: {e}"))?;
+    let rot = WalRotator::new(st, max_file_size).map_err(|e| format!("rotator open failed: {e}"))?;
     let entries = std::panic::catch_unwind(std::panic::AssertUnwindSafe(|| rot.recover_all_entries()))
         .map_err(|p| format!("recovery panicked: {}", vh::panic_text(&p)))?
         .map_err(|e| format!("recovery failed: {e}"))?;
@@ -174,26 +174,37 @@ fn judge(sc: &Scenario, out: &Outcome, crash_images: &AtomicU64) -> Vec<(String,
     for i in 0..=out.log.len() {
         let img = VWalStore::crash_image(&out.log, i);
         crash_images.fetch_add(1, Ordering::Relaxed);
-        match recover(&img) {
-            Err(e) => v.push((format!("recovery-error {}", sc.shape()), format!("crash after I/O call {i}: {e}"))),
-            Ok(rec) => {
-                for (ts, stamp) in &acked {
-                    if (i as u64) >= *stamp && !rec.contains(ts) {
-                        let ops: Vec<String> = out.log.iter().map(|o| format!("{}({}{})", o.kind, o.file.trim_start_matches("wal-").trim_end_matches(".wal"), if o.ok { "" } else { ",FAILED" })).collect();
-                        // which file held the lost entry, and was it the current one at ack time?
-                        v.push((
-                            format!("acked-write-lost {}", sc.shape()),
-                            format!(
-                                "write ts={ts} was reported durable when {stamp} I/O calls had been made, but a crash after call {i} recovers only {:?}; I/O log: [{}]; schedule {:?}",
-                                rec, ops.join(" "), out.trace
-                            ),
-                        ));
+        // the restarted server opens the WAL with the configuration it was written with; what recovery returns must not
+        // depend on the rotation threshold either, so a never-rotating and an always-rotating configuration are tried too
+        let own = sc.max_file_size();
+        let mut thresholds = vec![own];
+        for t in [1usize << 30, 17] {
+            if t != own {
+                thresholds.push(t);
+            }
+        }
+        for threshold in thresholds {
+            let tlabel = if threshold == own { String::new() } else { format!(" recovered-with-threshold={}", if threshold == 17 { "tiny" } else { "huge" }) };
+            match recover(&img, threshold) {
+                Err(e) => v.push((format!("recovery-error {}{tlabel}", sc.shape()), format!("crash after I/O call {i}: {e}"))),
+                Ok(rec) => {
+                    for (ts, stamp) in &acked {
+                        if (i as u64) >= *stamp && !rec.contains(ts) {
+                            let ops: Vec<String> = out.log.iter().map(|o| format!("{}({}{})", o.kind, o.file.trim_start_matches("wal-").trim_end_matches(".wal"), if o.ok { "" } else { ",FAILED" })).collect();
+                            v.push((
+                                format!("acked-write-lost {}{tlabel}", sc.shape()),
+                                format!(
+                                    "write ts={ts} was reported durable when {stamp} I/O calls had been made, but a crash after call {i} recovers (WAL opened with max_file_size={threshold}; written with {own}) only {:?}; I/O log: [{}]; schedule {:?}",
+                                    rec, ops.join(" "), out.trace
+                                ),
+                            ));
+                            return v;
+                        }
+                    }
+                    if let Some(bad) = rec.iter().find(|t| !all_ts.contains(t)) {
+                        v.push((format!("phantom-entry {}{tlabel}", sc.shape()), format!("crash after call {i}: recovered ts={bad} which nobody wrote")));
                         return v;
                     }
-                }
-                if let Some(bad) = rec.iter().find(|t| !all_ts.contains(t)) {
-                    v.push((format!("phantom-entry {}", sc.shape()), format!("crash after call {i}: recovered ts={bad} which nobody wrote")));
-                    return v;
                 }
             }
         }
